@@ -1,9 +1,193 @@
 (* C20 - seekable format: theorem list (statements only; proofs are in ZV.Seek.*Proofs). *)
 From Coq Require Import NArith List Bool.
-From ZV.Seek Require Import SeekTable SeekBase.
+From ZV.Gen Require Import Gen_Seek.
+From ZV.Seek Require Import SeekTable SeekBase SeekTableProofs SeekLoadProofs SeekLoadSafe SeekWriteProofs SeekWriter.
+From ZV.Seek Require Import SeekReader SeekReaderProofs SeekEndToEnd SeekCompressProofs.
 Import ListNotations.
 Local Open Scope N_scope.
 
 Theorem le32_roundtrip : forall v, v < 4294967296 -> rd32 (le32 v) = v.
 Proof. exact rd32_le32. Qed.
 Print Assumptions le32_roundtrip.
+
+(* ZSTD_seekTable_offsetToFrameIndex on EVERY well-formed table and EVERY position: past the end -> numFrames,
+   otherwise a frame i with dOffset[i] <= pos < dOffset[i+1]; the loop neither runs out of its log2 fuel nor
+   leaves the table *)
+Theorem offset_to_frame_correct : forall t pos, wf_table t ->
+  (e_d (ent t (t_len t)) <= pos -> offset_to_frame t pos = Ok (t_len t)) /\
+  (pos < e_d (ent t (t_len t)) ->
+   exists i, offset_to_frame t pos = Ok i /\ i < t_len t /\
+             e_d (ent t i) <= pos /\ pos < e_d (ent t (i + 1))).
+Proof. exact offset_to_frame_spec. Qed.
+Print Assumptions offset_to_frame_correct.
+
+Theorem offset_to_frame_never_traps : forall t pos, wf_table t ->
+  exists i, offset_to_frame t pos = Ok i /\ i <= t_len t.
+Proof. exact offset_to_frame_total. Qed.
+Print Assumptions offset_to_frame_never_traps.
+
+Theorem frame_containing_offset_unique : forall t pos i j, wf_table t ->
+  i < t_len t -> j < t_len t ->
+  e_d (ent t i) <= pos < e_d (ent t (i + 1)) ->
+  e_d (ent t j) <= pos < e_d (ent t (j + 1)) -> i = j.
+Proof. exact frame_containing_unique. Qed.
+Print Assumptions frame_containing_offset_unique.
+
+Theorem accessors_consistent : forall t i, wf_table t -> i < t_len t ->
+  get_frame_c_offset t i = Ok (e_c (ent t i)) /\
+  get_frame_d_offset t i = Ok (e_d (ent t i)) /\
+  get_frame_c_size t i = Ok (sub64 (e_c (ent t (i + 1))) (e_c (ent t i))) /\
+  get_frame_d_size t i = Ok (sub64 (e_d (ent t (i + 1))) (e_d (ent t i))).
+Proof. exact accessors_in_table. Qed.
+Print Assumptions accessors_consistent.
+
+Theorem accessors_index_too_large : forall t i, t_len t <= i ->
+  get_frame_c_offset t i = Ok TOOLARGE /\
+  get_frame_d_offset t i = Ok TOOLARGE /\
+  get_frame_c_size t i = Ok ERR_TOOLARGE /\
+  get_frame_d_size t i = Ok ERR_TOOLARGE.
+Proof. exact accessors_beyond. Qed.
+Print Assumptions accessors_index_too_large.
+
+(* refutation witness kept for the code before fix fcd1515 *)
+Theorem accessor_before_fix_reads_out_of_table : get_frame_d_size_old old_witness 1 = Trap 43.
+Proof. exact old_d_size_out_of_range. Qed.
+Print Assumptions accessor_before_fix_reads_out_of_table.
+
+Theorem table_of_log_wf : forall fl (log : list logent),
+  lenN log < 4294967295 -> Forall dsize_ok log -> wf_table (table_of fl log).
+Proof. exact table_of_wf. Qed.
+Print Assumptions table_of_log_wf.
+
+(* load (anything || the seek table the writer's format prescribes for a frame log) = the table of that log:
+   for EVERY frame log up to ZSTD_SEEKABLE_MAXFRAMES entries, both checksum settings, every preceding archive
+   content [pre] and every previous content of the reader's buffer (chunked loader, refills included) *)
+Theorem seektable_roundtrip : forall fl log pre buf0,
+  lenN buf0 = sk_BUFF -> lenN log <= MAXFRAMES -> Forall logent_ok log ->
+  load_seek_table sk_BUFF (pre ++ seek_table_bytes (cf_of fl) log) buf0 = Ok (table_of fl log).
+Proof. exact seektable_roundtrip_BUFF. Qed.
+Print Assumptions seektable_roundtrip.
+
+(* ARBITRARY file bytes: the loader never uses an out-of-range index (no Trap), and whatever it accepts is a
+   well-formed table - so by the theorems above every later binary search / accessor stays inside it *)
+Theorem malformed_table_safe : forall file buf0,
+  bytes_ok file -> lenN buf0 = sk_BUFF -> bytes_ok buf0 ->
+  match load_seek_table sk_BUFF file buf0 with
+  | Ok t => wf_table t
+  | Err _ => True
+  | Trap _ => False
+  end.
+Proof. exact load_safe_BUFF. Qed.
+Print Assumptions malformed_table_safe.
+
+(* ---------------------------------------------------------------- the reader ----------------------------------
+   Hypotheses: the table is well formed (malformed_table_safe: every table the loader accepts is), frame i
+   regenerates x[dOffset i, dOffset (i+1)) (frames_match: the decoder's correctness, C01/C02), and with checksums
+   on the table's checksums are those of the frames.  H (the hash), BUFF, NOPROG and both variants of the short-frame
+   check are arbitrary.  The decoder's pacing (bytes per call, when it reports completion) is an arbitrary oracle. *)
+
+(* EVERY read history from the state after init - ranges with offset+len <= |x| and decompressFrame calls with any
+   index / dstSize, in any order, each with any previous dst content and any decoder pacing: a call that succeeds
+   returns exactly x[offset, offset+len) and leaves dst beyond len untouched; decompressFrame refuses exactly
+   index >= numFrames / dstSize < frame size; the only other outcomes are "oracle exhausted" and the no-progress
+   error; never an out-of-range index, never corruption_detected, never a spin without decoder calls; the cache
+   (curFrame, decompressedOffset, decoder position, running hash) satisfies the invariant after every call, failed or
+   not, which is what makes any order work *)
+Theorem range_read_correct : forall H content BUFF NOPROG t sfc x,
+  wf_table t -> frames_match content t x -> checksums_match H content t ->
+  forall h, Forall (fun c => op_in_range t (fst (fst c))) h ->
+  history_ok H content BUFF NOPROG t sfc x rinit h.
+Proof. exact range_read_history. Qed.
+Print Assumptions range_read_correct.
+
+(* when the decoder makes progress on every call and reports completion with a frame's last byte, a call from ANY
+   reachable cache state returns (ROk) the slice within offset+len decoder calls *)
+Theorem range_read_terminates : forall H content BUFF NOPROG t sfc x st dst0 len offset orc,
+  wf_table t -> frames_match content t x -> checksums_match H content t ->
+  Inv content t st -> offset + len <= e_d (ent t (t_len t)) ->
+  live_call BUFF offset len orc ->
+  exists st', seekable_decompress H content BUFF NOPROG t sfc st dst0 len offset orc
+              = ROk len (sliceN x offset len ++ skipN dst0 len) st' /\ Inv content t st'.
+Proof. exact range_read_live. Qed.
+Print Assumptions range_read_terminates.
+
+(* the hypotheses are satisfiable (three frames, one of them empty, checksums on) *)
+Theorem reader_hypotheses_satisfiable :
+  wf_table ex_t /\ frames_match ex_content ex_t ex_x /\ checksums_match ex_H ex_content ex_t.
+Proof. exact (conj ex_wf (conj ex_frames ex_sums)). Qed.
+Print Assumptions reader_hypotheses_satisfiable.
+
+(* refutation witness kept for the code before fix e8679b7 (short_frame_check = false): a frame regenerating 16 bytes
+   under a table entry claiming 32 - however many decoder calls are granted, the loop wants another one *)
+Theorem reader_before_fix_never_returns : forall n dst0,
+  exists d s, seekable_decompress ex_H sf_content 131072 16 sf_t false rinit dst0 32 0 (repeat (16, true) n) = RFuel d s.
+Proof. exact livelock_before_fix. Qed.
+Print Assumptions reader_before_fix_never_returns.
+
+Theorem reader_after_fix_reports_corruption :
+  exists d s, seekable_decompress ex_H sf_content 131072 16 sf_t true rinit (repeat 0 32) 32 0 (repeat (16, true) 40)
+              = RErr sk_E_corruption_detected d s.
+Proof. exact no_livelock_after_fix. Qed.
+Print Assumptions reader_after_fix_reports_corruption.
+
+(* ---------------------------------------------------------------- the resumable table writer ------------------
+   ZSTD_seekable_writeSeekTable called again and again with ANY output room per call (0, 1, 3 bytes, ...), for
+   every frame log up to MAXFRAMES and every checksumFlag: no call fails or reads tmp[4] out of range; the calls emit
+   consecutive slices of seek_table_bytes (so their concatenation is a prefix of it, the whole of it once a call
+   returns 0); each call returns exactly the number of bytes still missing; a call with room > 0 on an unfinished
+   table writes at least one byte (so the table completes after at most |table| such calls).  Together with
+   seektable_roundtrip: whatever the segmentation, the loader reads back the table of the frame log. *)
+Theorem seek_table_writer_any_segmentation : forall cf log,
+  lenN log <= MAXFRAMES -> forall avails,
+  hist_spec cf log 0 avails (write_history cf log 0 0 avails).
+Proof. exact write_history_from_start. Qed.
+Print Assumptions seek_table_writer_any_segmentation.
+
+(* ---------------------------------------------------------------- composition ---------------------------------
+   For EVERY list of frames (compressed size, content; sizes < 2^32; at most MAXFRAMES), both checksum settings, any
+   archive bytes before the table: the seek table the format prescribes for the frame log loads (chunked loader)
+   into a table for which every read history returns slices of x = concatenation of the frame contents, given only
+   that frame i decodes to its content (the oracle's pacing is arbitrary). *)
+Theorem archive_reads_back : forall H fl frames pre buf0 NOPROG sfc,
+  Forall frame_ok frames -> lenN frames <= MAXFRAMES -> lenN buf0 = sk_BUFF ->
+  exists t, load_seek_table sk_BUFF (pre ++ seek_table_bytes (cf_of fl) (log_of H fl frames)) buf0 = Ok t /\
+    forall h, Forall (fun c => op_in_range t (fst (fst c))) h ->
+      history_ok H (content_of frames) sk_BUFF NOPROG t sfc (whole frames) rinit h.
+Proof. exact archive_reads_back_lemma. Qed.
+Print Assumptions archive_reads_back.
+
+(* ---------------------------------------------------------------- the compressor's bookkeeping ----------------
+   EVERY history of ZSTD_seekable_compressStream / endFrame / endStream calls from initCStream (any maxFrameSize the
+   init accepts, any checksumFlag), EVERY behaviour of the inner ZSTD_CStream (oracle: bytes consumed / produced /
+   return value per inner call).  Contract (ops_ok): no compressStream / endFrame after the seek-table phase started;
+   ZSTD_endStream results are error codes or < 2^63.  Then: the frame log is exactly log_of the frames the consumed
+   input was cut into (compressed size mod 2^32, content length, low 32 bits of H(content) when checksums are on);
+   every frame holds at most maxFrameSize bytes; at most MAXFRAMES entries; frames ++ the pending bytes = the bytes the
+   calls consumed, in order; and whatever was written in the table phase is a prefix of the table of that log. *)
+Theorem compressor_frame_log_correct : forall H cf m s0 ops s' rets,
+  c_init cf m = Ok s0 -> ops_ok H s0 ops -> c_run H s0 ops = Some (s', rets) ->
+  let frames := norm_frames s' in
+  c_log s' = log_of H (flag_set cf) frames /\
+  Forall (fun f => lenN (snd f) <= c_mfs s') frames /\ 1 <= c_mfs s' <= 1073741824 /\
+  lenN (c_log s') <= MAXFRAMES /\
+  whole frames ++ revT (g_cur s') = fed_of ops rets /\
+  (c_wst s' = true -> g_cur s' = [] /\ exists n, g_table s' = firstN (seek_table_bytes cf (c_log s')) n).
+Proof. exact compressor_log_correct. Qed.
+Print Assumptions compressor_frame_log_correct.
+
+(* when the last call is an endStream that returns 0, the complete seek table of the frame log has been written
+   (in however many pieces, with whatever room per call) and no input is pending *)
+Theorem compressor_endStream_zero_means_complete : forall H cf m s0 ops avail orc s' rets k,
+  c_init cf m = Ok s0 -> ops_ok H s0 (ops ++ [OpEndStream avail orc]) ->
+  c_run H s0 (ops ++ [OpEndStream avail orc]) = Some (s', rets ++ [(0, k)]) -> lenN rets = lenN ops ->
+  g_table s' = seek_table_bytes cf (c_log s') /\ g_cur s' = [].
+Proof. exact compressor_table_complete. Qed.
+Print Assumptions compressor_endStream_zero_means_complete.
+
+(* the model of compressStream depends on the first maxFrameSize bytes of the offered input only (used by the
+   correspondence driver to avoid handing the whole remaining input to the model at every call) *)
+Theorem compressStream_reads_at_most_maxFrameSize : forall H s inp orc,
+  c_fd s <= c_mfs s -> c_mfs s < 4294967296 ->
+  c_compress H s inp orc = c_compress H s (firstN inp (c_mfs s)) orc.
+Proof. exact c_compress_input_prefix. Qed.
+Print Assumptions compressStream_reads_at_most_maxFrameSize.
